@@ -111,7 +111,7 @@ func genArg(rng *rand.Rand, big bool) string {
 
 func c04(c *wk.Ctx) {
 	c.Note("rule", "each plan: an in-process directory server (unix; tcp too in thorough) hosting the freshly generated Probe service as 2 services x 3 objects; 4-32 caller goroutines over 1-4 sessions (own proxies each) issue calls work(token, arg) with unique tokens and argument sizes 0 B - 256 KiB to random objects while method bodies park and are released in PRNG order (replies cross); some calls are cancelled through their context while parked; two goroutines call through two proxies obtained from one bus.Cache on one connection; a raw harness connection sends frames of every message type (Post, Cancel, Capability, Reply, Error, Event, Cancelled) addressed to the real action with fresh tokens, each followed by a barrier Call on the same connection and object. Oracle: each call returns once, success => exactly f(own token, own arg) and exec[token]==1; otherwise exec<=1; Post: exec<=1 and no frame with the post's id comes back; any other type: exec==0. Distinct non-trivial = distinct plans in which at least two calls overlapped and at least one reply-order inversion was observed.")
-	c.Cases("plan", c.Pick(48, 2000), func(i int, rng *rand.Rand) {
+	c.Cases("plan", c.Pick(72, 2000), func(i int, rng *rand.Rand) {
 		transport := "unix"
 		if c.Thorough() && i%3 == 2 {
 			transport = "tcp"
